@@ -571,7 +571,19 @@ func genC17(r *rand.Rand, run int, tier string) *vm.Plan {
 				h.honest = append(h.honest, nt)
 				h.tokKey[nt] = k
 			}
-		case 1, 2:
+		case 1:
+			// one built block (one object) appended twice to the same parent
+			p := h.pick(h.honest)
+			bb := h.add(vm.Op{K: "bb", A: p, Out: h.slot()})
+			h.add(vm.Op{K: "bbadd", A: bb, Blk: blkp(same)})
+			bk := h.add(vm.Op{K: "bbbuild", A: bb, Out: h.slot()})
+			for n := 0; n < 2; n++ {
+				nt := h.add(vm.Op{K: "append", A: p, B: bk, Ent: entropy(r), Out: h.slot()})
+				h.toks = append(h.toks, nt)
+				h.honest = append(h.honest, nt)
+				h.tokKey[nt] = h.tokKey[p]
+			}
+		case 2:
 			p := h.pick(h.honest)
 			for n := 0; n < 2; n++ {
 				nt := h.attenuate(p, same)
